@@ -1,6 +1,1031 @@
-//! C10 — not built yet (stub; replaced by the real check).
+//! C10 — fallible public APIs are total: errors, never panics or unbounded allocation.
+//!
+//! Every call into the library runs under `guard::guard` (catch_unwind + allocation accounting);
+//! a returned `Err` / `None` is always fine. Documented panic conditions are never generated.
+use std::collections::HashMap;
+use std::str::FromStr;
+
+use elements::blech32::decode::{CheckedHrpstring, SegwitHrpstring, UncheckedHrpstring};
+use elements::blech32::{Blech32, Blech32m};
+use elements::confidential::{Asset, AssetBlindingFactor, Nonce, Value, ValueBlindingFactor};
+use elements::encode::{deserialize, deserialize_partial, serialize};
+use elements::hashes::Hash as _;
+use elements::pset::serialize::Deserialize as PsetDeserialize;
+use elements::pset::{self, PartiallySignedTransaction as Pset};
+use elements::sighash::{Prevouts, SighashCache};
+use elements::taproot::{ControlBlock, TaprootBuilder, TaprootMerkleBranch, TaprootSpendInfo};
+use elements::{
+    dynafed, script, Address, AddressParams, AssetId, AssetIssuance, Block, BlockHash, BlockHeader, ContractHash, LockTime, OutPoint, PeginData, SchnorrSig,
+    SchnorrSighashType, Script, Sequence, Transaction, TxIn, TxInWitness, TxOut, TxOutSecrets, TxOutWitness, Txid,
+};
+use rand::SeedableRng;
+use rand_chacha::ChaCha20Rng;
+use serde_json::json;
+
+use super::c01;
 use crate::engine::*;
+use crate::gen::ct::{self};
+use crate::gen::pset::{self as gp, PsetOpts};
+use crate::gen::{self, mutate, pool, secp, TxOpts};
+
+pub const KF_BLIND_NO_MARKED: &str = "transaction-blind-panics-without-marked-output";
+pub const KF_NEW_BECH32_EMPTY: &str = "segwithrpstring-new-bech32-panics-on-empty-data";
+
+fn g<T>(what: &str, len: usize, f: impl FnOnce() -> T) -> Result<T, Failure> {
+    guard::guard(what, len, f)
+}
+
+// ---- accessors applied to freshly decoded values ------------------------------------------
+
+pub fn tx_accessors(tx: &Transaction, n: usize) -> R {
+    g("Transaction accessors", n, || {
+        let _ = (tx.txid(), tx.wtxid(), tx.size(), tx.weight(), tx.vsize(), tx.discount_weight(), tx.discount_vsize());
+        // fee_in / all_fees are not among the accessors the statement lists (they sum u64 fee amounts
+        // without a failure channel); they are not exercised here
+        let _ = (tx.is_coinbase(), tx.has_witness());
+        for i in &tx.input {
+            let _ = (i.is_coinbase(), i.is_pegin(), i.pegin_prevout(), i.has_issuance(), i.outpoint_flag(), i.issuance_ids());
+            if let Some(pd) = i.pegin_data() {
+                let _ = (pd.parse_tx().is_ok(), pd.parse_merkle_proof().is_ok(), pd.to_pegin_witness().len());
+            }
+            let _ = script_accessors_inner(&i.script_sig);
+        }
+        for o in &tx.output {
+            let _ = (o.is_null_data(), o.is_pegout(), o.is_fee(), o.minimum_value(), o.is_partially_blinded());
+            if let Some(pd) = o.pegout_data() {
+                let _ = pd.extra_data.len();
+            }
+            let _ = (o.witness.rangeproof_len(), o.witness.surjectionproof_len());
+            let _ = script_accessors_inner(&o.script_pubkey);
+        }
+        let _ = format!("{:?}", tx).len();
+        let _ = serde_json::to_string(tx).map(|s| s.len());
+    })
+}
+
+fn script_accessors_inner(s: &Script) -> usize {
+    let mut n = 0;
+    for ins in s.instructions() {
+        n += usize::from(ins.is_ok());
+    }
+    for ins in s.instructions_minimal() {
+        n += usize::from(ins.is_ok());
+    }
+    n += s.asm().len();
+    n += format!("{} {:?} {:x}", s, s, s).len();
+    let _ = (
+        s.is_p2sh(),
+        s.is_p2pkh(),
+        s.is_p2pk(),
+        s.is_witness_program(),
+        s.is_v0_p2wsh(),
+        s.is_v0_p2wpkh(),
+        s.is_v1_p2tr(),
+        s.is_v1plus_p2witprog(),
+        s.is_op_return(),
+        s.is_provably_unspendable(),
+    );
+    let _ = (s.script_hash(), s.wscript_hash(), s.to_p2sh().len(), s.to_v0_p2wsh().len());
+    for p in [&AddressParams::ELEMENTS, &AddressParams::LIQUID] {
+        if let Some(a) = Address::from_script(s, None, p) {
+            n += a.to_string().len();
+        }
+    }
+    n
+}
+
+pub fn script_accessors(s: &Script) -> R {
+    g("Script accessors", s.len(), || {
+        let _ = script_accessors_inner(s);
+    })
+}
+
+fn header_accessors(h: &BlockHeader, n: usize) -> R {
+    g("BlockHeader accessors", n, || {
+        let _ = (h.block_hash(), h.is_dynafed(), h.calculate_dynafed_params_root(), h.dynafed_current().is_some(), h.dynafed_proposed().is_some());
+        let mut c = h.clone();
+        c.clear_witness();
+        let _ = format!("{:?}", h).len();
+        let _ = serde_json::to_string(h).map(|s| s.len());
+    })
+}
+
+fn params_accessors(p: &dynafed::Params, n: usize) -> R {
+    g("Params accessors", n, || {
+        let _ = (p.calculate_root(), p.is_null(), p.is_compact(), p.is_full(), p.elided_root().is_some(), p.signblockscript().is_some());
+        let _ = p.clone().into_compact().map(|c| c.calculate_root());
+        let _ = format!("{:?}", p).len();
+    })
+}
+
+pub fn pset_accessors(p: &Pset, n: usize) -> R {
+    g("PSET accessors", n, || {
+        let _ = (p.extract_tx().is_ok(), p.unique_id().is_ok(), p.locktime().is_ok(), p.sanity_check().is_ok(), p.n_inputs(), p.n_outputs());
+        let _ = serialize(p).len();
+        let _ = p.to_string().len();
+        for i in p.inputs() {
+            let _ = (i.has_issuance(), i.is_pegin(), i.issuance_ids(), i.asset_issuance(), i.ecdsa_hash_ty(), i.schnorr_hash_ty(), i.get_abf().map(|r| r.is_ok()));
+        }
+        for o in p.outputs() {
+            let _ = (o.to_txout(), o.is_marked_for_blinding(), o.is_partially_blinded(), o.is_fully_blinded(), o.get_abf().map(|r| r.is_ok()));
+        }
+        let _ = p.get_asset_metadata(AssetId::LIQUID_BTC).map(|r| r.is_ok());
+        let _ = p.get_token_metadata(AssetId::LIQUID_BTC).map(|r| r.is_ok());
+        let empty: HashMap<usize, TxOutSecrets> = HashMap::new();
+        let _ = p.surjection_inputs(&empty).is_ok();
+        let _ = format!("{:?}", p).len();
+    })
+}
+
+// ---- (1) consensus decoders on arbitrary bytes ----------------------------------------------
+
+const N_DECODERS: usize = 30;
+
+/// decode `b` as type number `ty` and apply the accessors; returns whether it decoded
+fn decode_as(ty: usize, b: &[u8]) -> Result<bool, Failure> {
+    let n = b.len();
+    macro_rules! just {
+        ($t:ty) => {{
+            let r = g(concat!("deserialize::<", stringify!($t), ">"), n, || deserialize::<$t>(b))?;
+            let _ = g(concat!("deserialize_partial::<", stringify!($t), ">"), n, || deserialize_partial::<$t>(b).map(|(_, c)| c))?;
+            if let Ok(v) = &r {
+                let _ = g("re-serialize", n, || serialize(v).len())?;
+            }
+            r.is_ok()
+        }};
+    }
+    Ok(match ty {
+        0 => {
+            let r = g("deserialize::<Transaction>", n, || deserialize::<Transaction>(b))?;
+            let _ = g("deserialize_partial::<Transaction>", n, || deserialize_partial::<Transaction>(b).map(|(_, c)| c))?;
+            if let Ok(tx) = &r {
+                tx_accessors(tx, n)?;
+                let p = g("from_tx", n, || Pset::from_tx(tx.clone()))?;
+                pset_accessors(&p, n)?;
+            }
+            r.is_ok()
+        }
+        1 => {
+            let r = g("deserialize::<Block>", n, || deserialize::<Block>(b))?;
+            if let Ok(blk) = &r {
+                g("Block accessors", n, || {
+                    let _ = (blk.block_hash(), blk.size(), blk.weight());
+                })?;
+                header_accessors(&blk.header, n)?;
+                for tx in blk.txdata.iter().take(4) {
+                    tx_accessors(tx, n)?;
+                }
+            }
+            r.is_ok()
+        }
+        2 => {
+            let r = g("deserialize::<BlockHeader>", n, || deserialize::<BlockHeader>(b))?;
+            if let Ok(h) = &r {
+                header_accessors(h, n)?;
+            }
+            r.is_ok()
+        }
+        3 => {
+            let r = g("deserialize::<Params>", n, || deserialize::<dynafed::Params>(b))?;
+            if let Ok(p) = &r {
+                params_accessors(p, n)?;
+            }
+            r.is_ok()
+        }
+        4 => {
+            let r = g("deserialize::<Pset>", n, || deserialize::<Pset>(b))?;
+            if let Ok(p) = &r {
+                pset_accessors(p, n)?;
+            }
+            r.is_ok()
+        }
+        5 => {
+            let r = g("deserialize::<TxOut>", n, || deserialize::<TxOut>(b))?;
+            if let Ok(o) = &r {
+                g("TxOut accessors", n, || {
+                    let _ = (o.is_null_data(), o.pegout_data().is_some(), o.is_fee(), o.minimum_value());
+                    let sk = pool().seckeys[0];
+                    let _ = o.unblind(secp(), sk).is_ok();
+                })?;
+            }
+            r.is_ok()
+        }
+        6 => just!(TxIn),
+        7 => just!(TxInWitness),
+        8 => just!(TxOutWitness),
+        9 => just!(dynafed::FullParams),
+        10 => just!(Asset),
+        11 => just!(Value),
+        12 => just!(Nonce),
+        13 => just!(AssetIssuance),
+        14 => just!(OutPoint),
+        15 => {
+            let r = g("deserialize::<Script>", n, || deserialize::<Script>(b))?;
+            if let Ok(s) = &r {
+                script_accessors(s)?;
+            }
+            r.is_ok()
+        }
+        16 => just!(LockTime),
+        17 => just!(Sequence),
+        18 => just!(Txid),
+        19 => just!(AssetId),
+        20 => just!(pset::Input),
+        21 => just!(pset::Output),
+        22 => just!(pset::Global),
+        23 => just!(pset::raw::Key),
+        24 => just!(pset::raw::Pair),
+        25 => just!(pset::raw::ProprietaryKey),
+        26 => just!(Vec<Vec<u8>>),
+        27 => just!(Vec<TxOut>),
+        28 => just!(elements::secp256k1_zkp::RangeProof),
+        _ => just!(elements::secp256k1_zkp::SurjectionProof),
+    })
+}
+
+fn valid_encoding(t: &mut Tape, ty: usize) -> Option<(Vec<u8>, crate::refimpl::enc::Layout)> {
+    // valid encodings for the types we can generate
+    let map = [Some(0usize), Some(5), Some(6), Some(7), None, Some(2), Some(1), Some(3), Some(4), Some(8), Some(9), Some(10), Some(11), Some(12), Some(13), Some(14), Some(15), Some(16), Some(17), Some(19)];
+    // decoder index -> c01 type index
+    let c01_ty = match ty {
+        0 => 0,
+        1 => 5,
+        2 => 6,
+        3 => 7,
+        5 => 2,
+        6 => 1,
+        7 => 3,
+        8 => 4,
+        9 => 8,
+        10 => 9,
+        11 => 10,
+        12 => 11,
+        13 => 12,
+        14 => 13,
+        15 => 14,
+        16 => 15,
+        17 => 16,
+        18 => 17,
+        19 => 19,
+        4 => {
+            let p = gp::gen_pset(t, &PsetOpts::default());
+            return Some((serialize(&p), Default::default()));
+        }
+        20 => {
+            let i = gp::gen_input(t, 120);
+            return Some((serialize(&i), Default::default()));
+        }
+        21 => {
+            let o = gp::gen_output(t, 120, 2);
+            return Some((serialize(&o), Default::default()));
+        }
+        _ => {
+            let _ = map;
+            return None;
+        }
+    };
+    Some(c01::gen_any(t, c01_ty).ref_encode())
+}
+
+fn decoders(t: &mut Tape, ctx: &mut Ctx) -> R {
+    let ty = match t.below(10) {
+        0..=2 => 0,
+        3 => 4,
+        4 => 1,
+        _ => t.below(N_DECODERS),
+    };
+    let source = t.below(10);
+    let bytes: Vec<u8> = match source {
+        0 => {
+            let n = t.len(64, false);
+            t.bytes(n)
+        }
+        1 => {
+            // a length prefix that promises far more than is there
+            let mut b = match valid_encoding(t, ty) {
+                Some((b, _)) => b,
+                None => vec![],
+            };
+            let at = t.below(b.len() + 1);
+            let bomb: &[u8] = match t.below(4) {
+                0 => &[0xfe, 0xff, 0xff, 0xff, 0x7f],
+                1 => &[0xff, 0xff, 0xff, 0xff, 0xff, 0xff, 0xff, 0xff, 0x7f],
+                2 => &[0xfe, 0x00, 0x09, 0x3d, 0x00],
+                _ => &[0xfd, 0xff, 0xff],
+            };
+            b.splice(at..at, bomb.iter().copied());
+            b
+        }
+        2 => {
+            // repository vectors
+            let files = if ty == 4 { super::c07::corpus_psets() } else { c01::corpus_tx_files() };
+            if files.is_empty() {
+                vec![]
+            } else {
+                let mut b = files[t.below(files.len())].1.clone();
+                if t.bool() {
+                    let l = crate::refimpl::enc::Layout::default();
+                    mutate::mutate_once(t, &mut b, &l);
+                }
+                b
+            }
+        }
+        _ => match valid_encoding(t, ty) {
+            Some((mut b, l)) => {
+                for _ in 0..t.below(4) {
+                    mutate::mutate_once(t, &mut b, &l);
+                }
+                b
+            }
+            None => {
+                let n = t.len(120, false);
+                t.bytes(n)
+            }
+        },
+    };
+    ctx.eval();
+    let ok = decode_as(ty, &bytes)?;
+    ctx.class(&format!("decode:{}:{}", ty, if ok { "ok" } else { "err" }));
+    if bytes.len() >= 8 {
+        ctx.nontrivial(&(ty, &bytes));
+    }
+    if ctx.wants_sample("decoder") && ok && bytes.len() > 40 {
+        ctx.sample("decoder", || json!({"decoder": ty, "len": bytes.len(), "source": source, "decoded": ok}));
+    }
+    Ok(())
+}
+
+// ---- text parsers --------------------------------------------------------------------------
+
+fn valid_text(t: &mut Tape) -> String {
+    let p = pool();
+    match t.below(12) {
+        0 | 1 => {
+            let a = super::c06::gen_ref_addr(t);
+            a.encode()
+        }
+        2 => gen::gen_txid(t).to_string(),
+        3 => OutPoint { txid: gen::gen_txid(t), vout: t.edgy_u32() }.to_string(),
+        4 => {
+            let pset = gp::gen_pset(t, &PsetOpts { max_in: 1, max_out: 1, ..PsetOpts::default() });
+            pset.to_string()
+        }
+        5 => gen::gen_asset_id(t).to_string(),
+        6 => ct::abf_from(t, 1).to_string(),
+        7 => t.choose(&["SIGHASH_ALL", "SIGHASH_NONE|SIGHASH_ANYONECANPAY", "SIGHASH_DEFAULT", "0x41", "SIGHASH_SINGLE"]).to_string(),
+        8 => format!("{}", t.edgy_u32()),
+        9 => {
+            let s = gen::gen_script(t, false);
+            format!("{:x}", s)
+        }
+        10 => {
+            let _ = p;
+            gen::gen_script(t, false).asm()
+        }
+        _ => "a1".to_string(),
+    }
+}
+
+fn mutate_text(t: &mut Tape, s: &mut String) {
+    let mut chars: Vec<char> = s.chars().collect();
+    let alphabet: Vec<char> = "qpzry9x8gf2tvdw0s3jn54khce6mua7l1bioBQ0OIl+/=:|x-_ \u{e9}\u{20ac}\u{1F600}\0".chars().collect();
+    match t.below(8) {
+        0 if !chars.is_empty() => {
+            let k = t.below(chars.len());
+            chars[k] = alphabet[t.below(alphabet.len())];
+        }
+        1 if !chars.is_empty() => {
+            let k = t.below(chars.len());
+            chars.truncate(k);
+        }
+        2 => {
+            let k = t.below(chars.len() + 1);
+            chars.insert(k, alphabet[t.below(alphabet.len())]);
+        }
+        3 if !chars.is_empty() => {
+            let k = t.below(chars.len());
+            chars.remove(k);
+        }
+        4 => {
+            let up: String = chars.iter().collect::<String>().to_uppercase();
+            chars = up.chars().collect();
+        }
+        5 => {
+            // keep only the part up to / after the separator
+            if let Some(pos) = chars.iter().rposition(|c| *c == '1') {
+                if t.bool() {
+                    chars.truncate(pos + 1);
+                } else {
+                    chars = chars[pos..].to_vec();
+                }
+            }
+        }
+        6 => {
+            let n = t.below(200);
+            let c = alphabet[t.below(alphabet.len())];
+            chars.extend(std::iter::repeat(c).take(n));
+        }
+        _ => {}
+    }
+    *s = chars.into_iter().collect();
+}
+
+fn parse_text(s: &str, ctx: &mut Ctx) -> R {
+    let n = s.len();
+    let r = g("Address::from_str", n, || Address::from_str(s).is_ok())?;
+    for p in [&AddressParams::LIQUID, &AddressParams::ELEMENTS, &AddressParams::LIQUID_TESTNET] {
+        let _ = g("Address::parse_with_params", n, || Address::parse_with_params(s, p).map(|a| (a.to_string().len(), a.script_pubkey().len(), a.is_blinded(), a.to_unconfidential().to_string().len())).is_ok())?;
+    }
+    let _ = g("UncheckedHrpstring::new", n, || {
+        UncheckedHrpstring::new(s).map(|u| {
+            let _ = (u.hrp(), u.has_valid_checksum::<Blech32>(), u.has_valid_checksum::<Blech32m>(), u.validate_checksum::<Blech32>().is_ok());
+            let _ = u.validate_and_remove_checksum::<Blech32m>().map(|c| c.byte_iter().count());
+        }).is_ok()
+    })?;
+    let _ = g("CheckedHrpstring::new", n, || {
+        let a = CheckedHrpstring::new::<Blech32>(s).map(|c| {
+            let _ = (c.hrp(), c.byte_iter().count());
+            let _ = c.validate_segwit().map(|x| x.byte_iter().count());
+        });
+        let b = CheckedHrpstring::new::<Blech32m>(s).map(|c| c.byte_iter().count());
+        a.is_ok() || b.is_ok()
+    })?;
+    let _ = g("SegwitHrpstring::new", n, || SegwitHrpstring::new(s).map(|x| (x.has_valid_hrp(), x.hrp(), x.witness_version(), x.byte_iter().count())).is_ok())?;
+    match guard::guard("SegwitHrpstring::new_bech32", n, || SegwitHrpstring::new_bech32(s).map(|x| x.byte_iter().count()).is_ok()) {
+        Ok(_) => {}
+        Err(f) => {
+            // the data part is empty (nothing after the separator)
+            let empty_data = s.rfind('1').map_or(false, |p| p + 1 == s.len());
+            if f.panic_loc.is_some() && empty_data && ctx.is_known(KF_NEW_BECH32_EMPTY) {
+                ctx.class("known:new_bech32-empty-data");
+            } else {
+                return Err(f);
+            }
+        }
+    }
+    let _ = g("FromStr impls", n, || {
+        let _ = Txid::from_str(s).is_ok();
+        let _ = BlockHash::from_str(s).is_ok();
+        let _ = AssetId::from_str(s).is_ok();
+        let _ = ContractHash::from_str(s).is_ok();
+        let _ = OutPoint::from_str(s).is_ok();
+        let _ = AssetBlindingFactor::from_str(s).is_ok();
+        let _ = ValueBlindingFactor::from_str(s).is_ok();
+        let _ = LockTime::from_str(s).is_ok();
+        let _ = Sequence::from_str(s).is_ok();
+        let _ = elements::EcdsaSighashType::from_str(s).is_ok();
+        let _ = SchnorrSighashType::from_str(s).is_ok();
+        let _ = pset::PsbtSighashType::from_str(s).is_ok();
+        let _ = Script::from_hex(s).is_ok();
+        let _ = Script::from_hex_no_prefix(s).is_ok();
+        let _ = ContractHash::from_json_contract(s).is_ok();
+    })?;
+    let _ = g("Pset::from_str", n, || Pset::from_str(s).is_ok())?;
+    let _ = g("serde_json -> types", n, || {
+        let _ = serde_json::from_str::<Transaction>(s).is_ok();
+        let _ = serde_json::from_str::<Address>(s).is_ok();
+        let _ = serde_json::from_str::<Value>(s).is_ok();
+        let _ = serde_json::from_str::<dynafed::Params>(s).is_ok();
+    })?;
+    ctx.class(if r { "text:address-parsed" } else { "text:address-rejected" });
+    Ok(())
+}
+
+fn text_parsers(t: &mut Tape, ctx: &mut Ctx) -> R {
+    let mut s = match t.below(8) {
+        0 => {
+            let n = t.below(40);
+            let b = t.bytes(n);
+            String::from_utf8_lossy(&b).to_string()
+        }
+        1 => {
+            // bech32-like strings from the alphabet with a separator somewhere
+            let n = t.below(30);
+            let al = b"qpzry9x8gf2tvdw0s3jn54khce6mua7l1";
+            let mut v: Vec<u8> = (0..n).map(|_| al[t.below(al.len())]).collect();
+            let hrp = t.choose(&["lq", "el", "tlq", "ex", "ert", "tex", "a", ""]);
+            let mut s = hrp.as_bytes().to_vec();
+            s.push(b'1');
+            s.append(&mut v);
+            String::from_utf8_lossy(&s).to_string()
+        }
+        _ => valid_text(t),
+    };
+    for _ in 0..t.below(3) {
+        mutate_text(t, &mut s);
+    }
+    ctx.eval();
+    parse_text(&s, ctx)?;
+    if s.contains('1') || s.len() > 8 {
+        ctx.nontrivial(&s);
+    }
+    if ctx.wants_sample("text") && s.len() > 10 && s.len() < 120 {
+        ctx.sample("text", || json!({"text": s}));
+    }
+    Ok(())
+}
+
+// ---- slice parsers ---------------------------------------------------------------------------
+
+fn slice_parsers(t: &mut Tape, ctx: &mut Ctx) -> R {
+    let src = t.below(6);
+    let b: Vec<u8> = match src {
+        0 => {
+            let n = t.below(140);
+            t.bytes(n)
+        }
+        1 => gp::gen_control_block(t).map(|c| c.serialize()).unwrap_or_default(),
+        2 => gp::gen_schnorr_sig(t).to_vec(),
+        3 => {
+            let mut v = Vec::new();
+            if let Some((tt, _)) = gp::gen_tap_tree(t, 6) {
+                use elements::pset::serialize::Serialize;
+                v = tt.serialize();
+            }
+            v
+        }
+        4 => gen::gen_script(t, false).into_bytes(),
+        _ => {
+            use elements::pset::serialize::Serialize;
+            gp::gen_key_source(t).serialize()
+        }
+    };
+    let mut b = b;
+    for _ in 0..t.below(3) {
+        mutate::mutate_once(t, &mut b, &Default::default());
+    }
+    let n = b.len();
+    ctx.eval();
+    g("ControlBlock::from_slice", n, || {
+        ControlBlock::from_slice(&b).map(|c| {
+            let _ = (c.size(), c.serialize().len());
+            let k = elements::schnorr::TweakedPublicKey::new(pool().pubkeys[0].x_only_public_key().0);
+            let _ = c.verify_taproot_commitment(secp(), &k, &Script::from(vec![0x51]));
+        }).is_ok()
+    })?;
+    g("TaprootMerkleBranch::from_slice", n, || TaprootMerkleBranch::from_slice(&b).map(|m| m.serialize().len()).is_ok())?;
+    g("SchnorrSig::from_slice", n, || SchnorrSig::from_slice(&b).map(|s| s.to_vec().len()).is_ok())?;
+    g("pset Deserialize impls", n, || {
+        let _ = <pset::TapTree as PsetDeserialize>::deserialize(&b).is_ok();
+        let _ = <elements::bitcoin::bip32::KeySource as PsetDeserialize>::deserialize(&b).is_ok();
+        let _ = <(Vec<elements::taproot::TapLeafHash>, elements::bitcoin::bip32::KeySource) as PsetDeserialize>::deserialize(&b).is_ok();
+        let _ = <(Script, elements::taproot::LeafVersion) as PsetDeserialize>::deserialize(&b).is_ok();
+        let _ = <(elements::bitcoin::key::XOnlyPublicKey, elements::taproot::TapLeafHash) as PsetDeserialize>::deserialize(&b).is_ok();
+        let _ = <SchnorrSig as PsetDeserialize>::deserialize(&b).is_ok();
+        let _ = <ControlBlock as PsetDeserialize>::deserialize(&b).is_ok();
+        let _ = <Value as PsetDeserialize>::deserialize(&b).is_ok();
+        let _ = <Asset as PsetDeserialize>::deserialize(&b).is_ok();
+        let _ = <pset::PsbtSighashType as PsetDeserialize>::deserialize(&b).is_ok();
+        let _ = <elements::bitcoin::PublicKey as PsetDeserialize>::deserialize(&b).is_ok();
+        let _ = <elements::bitcoin::Transaction as PsetDeserialize>::deserialize(&b).is_ok();
+        let _ = <Box<elements::secp256k1_zkp::RangeProof> as PsetDeserialize>::deserialize(&b).is_ok();
+        let _ = <Box<elements::secp256k1_zkp::SurjectionProof> as PsetDeserialize>::deserialize(&b).is_ok();
+        let _ = <AssetBlindingFactor as PsetDeserialize>::deserialize(&b).is_ok();
+        let _ = <elements::secp256k1_zkp::Tweak as PsetDeserialize>::deserialize(&b).is_ok();
+        let _ = <Vec<Vec<u8>> as PsetDeserialize>::deserialize(&b).is_ok();
+        let _ = <Transaction as PsetDeserialize>::deserialize(&b).is_ok();
+        let _ = <TxOut as PsetDeserialize>::deserialize(&b).is_ok();
+    })?;
+    g("ELIP-100 records", n, || {
+        let _ = pset::elip100::AssetMetadata::deserialize(&b).map(|m| (m.contract().len(), m.issuance_prevout(), m.serialize().len())).is_ok();
+        let _ = pset::elip100::TokenMetadata::deserialize(&b).map(|m| (*m.asset_id(), m.issuance_blinded(), m.serialize().len())).is_ok();
+    })?;
+    g("script readers", n, || {
+        let _ = script::read_scriptint(&b).is_ok();
+        let _ = script::read_scriptbool(&b);
+        for size in 0..=8usize {
+            let _ = script::read_uint(&b, size).is_ok();
+        }
+    })?;
+    g("from_slice / from_commitment constructors", n, || {
+        let _ = AssetBlindingFactor::from_slice(&b).is_ok();
+        let _ = ValueBlindingFactor::from_slice(&b).is_ok();
+        let _ = Value::from_commitment(&b).is_ok();
+        let _ = Asset::from_commitment(&b).is_ok();
+        let _ = Nonce::from_commitment(&b).is_ok();
+        let _ = elements::taproot::LeafVersion::from_u8(b.first().copied().unwrap_or(0)).is_ok();
+        let _ = elements::sighash::Annex::new(&b).map(|a| a.as_bytes().len()).is_ok();
+    })?;
+    // pegin witness: six items cut from the bytes
+    let mut items: Vec<Vec<u8>> = Vec::new();
+    let mut rest = &b[..];
+    let k = t.below(8);
+    for i in 0..k {
+        let l = match i {
+            0 => 8,
+            1 | 2 => 32,
+            5 => 80 + t.below(10),
+            _ => t.below(20),
+        }
+        .min(rest.len());
+        let l = if t.chance(30) { l.saturating_sub(1) } else { l };
+        items.push(rest[..l].to_vec());
+        rest = &rest[l..];
+    }
+    g("PeginData::from_pegin_witness", n, || {
+        let prev = elements::bitcoin::OutPoint::null();
+        PeginData::from_pegin_witness(&items, prev).map(|p| (p.parse_tx().is_ok(), p.parse_merkle_proof().is_ok(), p.to_pegin_witness().len())).is_ok()
+    })?;
+    script_accessors(&Script::from(b.clone()))?;
+    ctx.class(&format!("slice-source:{}", src));
+    if n >= 4 {
+        ctx.nontrivial(&b);
+    }
+    Ok(())
+}
+
+// ---- (3) fallible operations on structurally valid, semantically arbitrary arguments --------
+
+fn op_blind(t: &mut Tape, ctx: &mut Ctx) -> R {
+    // from a balanced case, made arbitrary
+    let case = ct::gen_ct_case(t, true);
+    let mut tx = case.tx.clone();
+    let mut secrets = case.secrets.clone();
+    let variant = t.below(8);
+    match variant {
+        0 => {
+            // no output marked
+            for o in tx.output.iter_mut() {
+                o.nonce = Nonce::Null;
+            }
+        }
+        1 => {
+            // zero value on a marked output
+            if let Some(o) = tx.output.iter_mut().find(|o| o.nonce.is_confidential()) {
+                o.value = Value::Explicit(0);
+            }
+        }
+        2 => {
+            // a marked output on a script that is no address
+            if let Some(o) = tx.output.iter_mut().find(|o| o.nonce.is_confidential()) {
+                o.script_pubkey = gen::gen_script(t, false);
+            }
+        }
+        3 => {
+            // secret count mismatch
+            if t.bool() {
+                secrets.pop();
+            } else {
+                secrets.push(secrets[0]);
+            }
+        }
+        4 => {
+            // already confidential output
+            if let Some(o) = tx.output.first_mut() {
+                o.value = Value::Confidential(pool().commitments[0]);
+            }
+        }
+        5 => {
+            // secrets that are not the true ones
+            for s in secrets.iter_mut() {
+                s.value = t.edgy_u64();
+            }
+        }
+        6 => {
+            tx.output.clear();
+        }
+        _ => {
+            // every output marked, including fee-like ones
+            let pk = pool().pubkeys[3];
+            for o in tx.output.iter_mut() {
+                o.nonce = Nonce::Confidential(pk);
+            }
+        }
+    }
+    let mut rng = ChaCha20Rng::from_seed(case.rng_seed);
+    let blind_iss = t.bool();
+    let marked = tx.output.iter().filter(|o| !o.is_fee() && o.nonce.is_confidential()).count();
+    let r = guard::guard("Transaction::blind", 0, || tx.blind(&mut rng, secp(), &secrets, blind_iss).is_ok());
+    ctx.eval();
+    match r {
+        Ok(_) => {}
+        Err(f) => {
+            if f.panic_loc.is_some() && marked == 0 && ctx.is_known(KF_BLIND_NO_MARKED) {
+                ctx.class("known:blind-without-marked-output");
+                return Ok(());
+            }
+            return Err(Failure { msg: format!("variant {} (marked outputs: {}): {}", variant, marked, f.msg), panic_loc: f.panic_loc });
+        }
+    }
+    // whatever came out: verification and unblinding must not panic either
+    g("verify_tx_amt_proofs", 0, || tx.verify_tx_amt_proofs(secp(), &case.spent).is_ok())?;
+    let mut spent = case.spent.clone();
+    if t.bool() {
+        spent.push(gen::gen_txout(t, &TxOpts::default()));
+    }
+    for s in spent.iter_mut() {
+        if t.chance(60) {
+            *s = gen::gen_txout(t, &TxOpts { big: false, ..TxOpts::default() });
+        }
+    }
+    g("verify_tx_amt_proofs(arbitrary spent)", 0, || tx.verify_tx_amt_proofs(secp(), &spent).is_ok())?;
+    for o in &tx.output {
+        let sk = pool().seckeys[t.below(pool().seckeys.len())];
+        g("TxOut::unblind(wrong key)", 0, || o.unblind(secp(), sk).is_ok())?;
+    }
+    for i in tx.input.iter_mut().take(2) {
+        let mut rng2 = ChaCha20Rng::from_seed(case.rng_seed);
+        g("blind_issuances", 0, || i.blind_issuances(secp(), &mut rng2).is_ok())?;
+    }
+    ctx.class(&format!("op:blind:variant{}", variant));
+    Ok(())
+}
+
+fn op_verify_arbitrary(t: &mut Tape, ctx: &mut Ctx) -> R {
+    let o = TxOpts { big: false, ..TxOpts::default() };
+    let tx = gen::gen_tx(t, &o);
+    let n = if t.chance(200) { tx.input.len() } else { t.below(5) };
+    let spent: Vec<TxOut> = (0..n).map(|_| gen::gen_txout(t, &o)).collect();
+    ctx.eval();
+    g("verify_tx_amt_proofs(arbitrary tx)", 0, || tx.verify_tx_amt_proofs(secp(), &spent).is_ok())?;
+    tx_accessors(&tx, 0)?;
+    ctx.class("op:verify-arbitrary");
+    Ok(())
+}
+
+fn op_pset(t: &mut Tape, ctx: &mut Ctx) -> R {
+    let mut p = gp::gen_pset(t, &PsetOpts::default());
+    // structural edits through the public API
+    for _ in 0..t.below(4) {
+        match t.below(6) {
+            0 => {
+                let k = t.below(p.inputs().len() + 2);
+                let _ = g("remove_input", 0, || p.remove_input(k).is_some())?;
+            }
+            1 => {
+                let k = t.below(p.outputs().len() + 2);
+                let _ = g("remove_output", 0, || p.remove_output(k).is_some())?;
+            }
+            // (insert_input / insert_output do not report failure through Result / Option and document a
+            // panic; they are outside the statement and not called here)
+            2 => {
+                let i = gp::gen_input(t, 60);
+                g("add_input", 0, || p.add_input(i))?;
+            }
+            3 => {
+                let o = gp::gen_output(t, 60, p.inputs().len());
+                g("add_output", 0, || p.add_output(o))?;
+            }
+            4 => {
+                for o in p.outputs_mut() {
+                    if t.bool() {
+                        o.blinder_index = Some(t.edgy_u32());
+                    }
+                    if t.chance(40) {
+                        o.amount = None;
+                        o.amount_comm = None;
+                    }
+                }
+            }
+            _ => {
+                p.global.scalars.push(gen::gen_tweak(t));
+            }
+        }
+    }
+    ctx.eval();
+    pset_accessors(&p, 0)?;
+    // blinding entry points with arbitrary secret maps
+    let mut secrets: HashMap<usize, TxOutSecrets> = HashMap::new();
+    for _ in 0..t.below(4) {
+        let idx = if t.chance(200) { t.below(p.inputs().len() + 1) } else { t.edgy_u32() as usize };
+        secrets.insert(idx, TxOutSecrets::new(gen::gen_asset_id(t), ct::abf_from(t, 3), t.edgy_u64(), ct::vbf_from(t, 4)));
+    }
+    g("surjection_inputs", 0, || p.surjection_inputs(&secrets).is_ok())?;
+    let seed = t.arr32();
+    let mut q = p.clone();
+    g("blind_non_last", 0, || q.blind_non_last(&mut ChaCha20Rng::from_seed(seed), secp(), &secrets).is_ok())?;
+    let mut q = p.clone();
+    g("blind_last", 0, || q.blind_last(&mut ChaCha20Rng::from_seed(seed), secp(), &secrets).is_ok())?;
+    pset_accessors(&q, 0)?;
+    // merge with an arbitrary other PSET and with a sibling
+    let other = gp::gen_pset(t, &PsetOpts::default());
+    let mut a = p.clone();
+    g("merge(arbitrary)", 0, || a.merge(other).is_ok())?;
+    let mut sib = p.clone();
+    for (_, ks) in sib.global.xpub.iter_mut() {
+        *ks = gp::gen_key_source(t);
+    }
+    sib.global.xpub.insert(gp::gen_xpub(t), gp::gen_key_source(t));
+    let mut a = p.clone();
+    g("merge(sibling with other key sources)", 0, || a.merge(sib).is_ok())?;
+    ctx.class("op:pset");
+    Ok(())
+}
+
+fn op_taproot(t: &mut Tape, ctx: &mut Ctx) -> R {
+    let p = pool();
+    ctx.eval();
+    // arbitrary builder histories
+    let mut b = TaprootBuilder::new();
+    let steps = t.below(12);
+    let mut alive = true;
+    for _ in 0..steps {
+        let depth = match t.below(6) {
+            0 => t.below(3),
+            1 => 127 + t.below(4),
+            2 => usize::from(t.u8()),
+            3 => usize::MAX - t.below(2),
+            _ => t.below(8),
+        };
+        let hidden = t.chance(50);
+        let script = gen::gen_script(t, false);
+        let h = elements::taproot::TapNodeHash::from_byte_array(t.arr32());
+        let cur = std::mem::replace(&mut b, TaprootBuilder::new());
+        let r = g("TaprootBuilder::add_*", 0, || if hidden { cur.add_hidden(depth, h) } else { cur.add_leaf(depth, script) })?;
+        match r {
+            Ok(nb) => b = nb,
+            Err(_) => {
+                alive = false;
+                break;
+            }
+        }
+    }
+    if alive {
+        let key = p.pubkeys[t.below(p.pubkeys.len())].x_only_public_key().0;
+        let _ = g("TaprootBuilder::is_complete", 0, || b.is_complete())?;
+        let r = g("TaprootBuilder::finalize", 0, || b.finalize(secp(), key))?;
+        if let Ok(info) = r {
+            g("TaprootSpendInfo accessors", 0, || {
+                let _ = (info.output_key(), info.output_key_parity(), info.merkle_root(), info.tap_tweak(), info.internal_key());
+                for (k, _) in info.as_script_map() {
+                    let _ = info.control_block(k).map(|c| c.serialize().len());
+                }
+            })?;
+        }
+    }
+    // Huffman with arbitrary weight lists
+    let n = match t.below(5) {
+        0 => 0,
+        1 => 1,
+        2 => t.below(300),
+        _ => t.below(12),
+    };
+    let mode = t.below(4);
+    let weights: Vec<(u32, Script)> = (0..n)
+        .map(|i| {
+            let w = match mode {
+                0 => 0,
+                1 => u32::MAX,
+                2 => t.edgy_u32(),
+                _ => t.u8() as u32,
+            };
+            (w, Script::from(vec![0x51, (i % 251) as u8, (i / 251) as u8]))
+        })
+        .collect();
+    let key = p.pubkeys[0].x_only_public_key().0;
+    let r = g("with_huffman_tree", 0, || TaprootSpendInfo::with_huffman_tree(secp(), key, weights.clone()))?;
+    if let Ok(info) = r {
+        g("huffman control blocks", 0, || {
+            for (k, _) in info.as_script_map() {
+                let _ = info.control_block(k).map(|c| c.size());
+            }
+        })?;
+    }
+    ctx.class(&format!("op:taproot:huffman-leaves:{}", if n == 0 { "0" } else if n == 1 { "1" } else if n > 16 { ">16" } else { "2..16" }));
+    Ok(())
+}
+
+fn op_sighash(t: &mut Tape, ctx: &mut Ctx) -> R {
+    let case = super::c03::gen_case(t);
+    let tx = &case.tx;
+    let mut cache = SighashCache::new(tx);
+    let n = tx.input.len();
+    ctx.eval();
+    for _ in 0..(1 + t.below(4)) {
+        // indices out of range, mismatched prevouts, arbitrary annex bytes
+        let idx = match t.below(4) {
+            0 => n + t.below(3),
+            1 => usize::MAX - t.below(2),
+            _ => t.below(n),
+        };
+        let ty = t.choose(&super::c03::SCHNORR_TYPES);
+        let plen = match t.below(4) {
+            0 => 0,
+            1 => n + 1,
+            _ => n,
+        };
+        let spent: Vec<TxOut> = (0..plen).map(|k| case.spent.get(k).cloned().unwrap_or_default()).collect();
+        let one = case.spent[0].clone();
+        let one_idx = if t.bool() { idx } else { t.below(n + 2) };
+        let annex_bytes = {
+            let l = t.below(20);
+            let mut a = t.bytes(l);
+            if t.chance(200) && !a.is_empty() {
+                a[0] = 0x50;
+            }
+            a
+        };
+        let use_one = t.chance(80);
+        let genesis = BlockHash::from_byte_array(t.arr32());
+        let leaf = if t.bool() { Some((elements::taproot::TapLeafHash::from_byte_array(t.arr32()), t.edgy_u32())) } else { None };
+        g("taproot_sighash(arbitrary)", 0, || {
+            let annex = elements::sighash::Annex::new(&annex_bytes).ok();
+            let refs: Vec<&TxOut> = spent.iter().collect();
+            if use_one {
+                let p = Prevouts::One(one_idx, &one);
+                let _ = cache.taproot_sighash(idx, &p, annex.clone(), leaf, ty, genesis).is_ok();
+                let _ = cache.taproot_key_spend_signature_hash(idx, &p, ty, genesis).is_ok();
+                let mut sink = Vec::new();
+                let _ = cache.taproot_encode_signing_data_to(&mut sink, idx, &p, annex, leaf, ty, genesis).is_ok();
+            } else {
+                let p = Prevouts::All(&refs);
+                let _ = cache.taproot_sighash(idx, &p, annex.clone(), leaf, ty, genesis).is_ok();
+                let _ = cache.taproot_script_spend_signature_hash(idx, &p, elements::taproot::TapLeafHash::from_byte_array([1; 32]), ty, genesis).is_ok();
+                let mut sink = Vec::new();
+                let _ = cache.taproot_encode_signing_data_to(&mut sink, idx, &p, annex, leaf, ty, genesis).is_ok();
+            }
+        })?;
+    }
+    ctx.class("op:taproot-sighash-arbitrary");
+    Ok(())
+}
+
+fn operations(t: &mut Tape, ctx: &mut Ctx) -> R {
+    match t.below(8) {
+        0 | 1 => op_blind(t, ctx),
+        2 => op_verify_arbitrary(t, ctx),
+        3 | 4 => op_pset(t, ctx),
+        5 => op_taproot(t, ctx),
+        _ => op_sighash(t, ctx),
+    }?;
+    ctx.nontrivial(&t.consumed());
+    Ok(())
+}
+
+/// the repository vectors and their decoded values through every accessor (replay tier)
+fn corpus(idx: u64, _seed: u64, ctx: &mut Ctx) -> R {
+    let mut files = c01::corpus_tx_files();
+    files.extend(super::c07::corpus_psets());
+    if files.is_empty() {
+        return Ok(());
+    }
+    let (name, b) = &files[idx as usize % files.len()];
+    ctx.eval();
+    for ty in [0, 1, 2, 4, 5] {
+        let ok = decode_as(ty, b)?;
+        if ok {
+            ctx.class(&format!("corpus-decoded-as:{}", ty));
+        }
+    }
+    ctx.nontrivial(name);
+    Ok(())
+}
+
+fn repro_blind_no_marked() -> bool {
+    std::panic::catch_unwind(|| {
+        let a = pool().assets[0];
+        let mut tx = Transaction {
+            version: 2,
+            lock_time: LockTime::ZERO,
+            input: vec![TxIn::default()],
+            output: vec![TxOut { asset: Asset::Explicit(a), value: Value::Explicit(1), nonce: Nonce::Null, script_pubkey: Script::new(), witness: TxOutWitness::empty() }],
+        };
+        let s = TxOutSecrets::new(a, AssetBlindingFactor::zero(), 1, ValueBlindingFactor::zero());
+        let _ = tx.blind(&mut ChaCha20Rng::from_seed([0; 32]), secp(), &[s], false);
+    })
+    .is_err()
+}
+fn repro_new_bech32() -> bool {
+    std::panic::catch_unwind(|| {
+        let _ = SegwitHrpstring::new_bech32("a1");
+    })
+    .is_err()
+}
 
 pub fn property() -> Property {
-    Property { id: "C10", rule: "", assumptions: &[], subs: vec![], known: vec![] }
+    let _ = TxInWitness::empty();
+    Property {
+        id: "C10",
+        rule: "decoders: 30 Decodable types x inputs (random bytes, valid encodings with 0..3 layout-aware mutations, length \
+               bombs spliced at a tape offset, repository vectors and their mutants); every successfully decoded value goes \
+               through the accessors (ids, sizes, weights, discount, fees, pegin / pegout data, minimum value, is_*, asm, \
+               Display / Debug, dynafed roots, PSET extract_tx / unique_id / locktime / sanity_check, serde_json) and decoded \
+               transactions through from_tx. text_parsers: random, bech32-shaped and mutated valid texts into Address, \
+               blech32 (Unchecked / Checked / SegwitHrpstring incl. new_bech32), 16 FromStr impls, PSET base64, serde_json. \
+               slice_parsers: ControlBlock / TaprootMerkleBranch / SchnorrSig / 19 pset Deserialize impls / ELIP-100 / script \
+               readers (read_uint sizes 0..8) / from_slice constructors / PeginData / script iteration on mutated valid and \
+               random slices. operations: Transaction::blind (8 degenerate variants), verify with arbitrary spent outputs, \
+               unblind with wrong keys, blind_issuances, PSET structural edits + blind_last / blind_non_last / \
+               surjection_inputs with arbitrary secret maps and blinder indices, merge with arbitrary PSETs and key \
+               sources, TaprootBuilder histories with arbitrary depths / hidden nodes, Huffman with 0..300 weights, taproot \
+               sighash with out-of-range indices / mismatched prevouts / arbitrary annex. Oracle: no panic outside the \
+               documented conditions, no abort, no single allocation > 64 MiB nor live growth > 128 MiB + 64 x input. \
+               Non-trivial: input of >= 8 bytes (decoders), text with a separator or > 8 chars, slice >= 4 bytes, every \
+               operation case; distinct by input.",
+        assumptions: &[
+            "documented panics are not generated: legacy/segwit sighash and signing-data with index >= inputs, insert_input / insert_output beyond the length, p2wpkh with uncompressed keys, new_witness_program with version > 16, push_slice >= 4 GiB, remove_checksum on unvalidated data, read_uint with size > 8",
+            "overflow-checks and debug-assertions are enabled in the harness build, so arithmetic overflow in the library is a panic",
+        ],
+        subs: vec![
+            Sub { name: "corpus", kind: Kind::Index { count: |_| 45, exhaustive: false, f: corpus } },
+            Sub { name: "decoders", kind: Kind::Tape { max_len: 4000, quick: 150_000, thorough: 5_000_000, f: decoders } },
+            Sub { name: "text_parsers", kind: Kind::Tape { max_len: 3000, quick: 60_000, thorough: 2_000_000, f: text_parsers } },
+            Sub { name: "slice_parsers", kind: Kind::Tape { max_len: 1500, quick: 60_000, thorough: 2_000_000, f: slice_parsers } },
+            Sub { name: "operations", kind: Kind::Tape { max_len: 5000, quick: 6_000, thorough: 200_000, f: operations } },
+        ],
+        known: vec![
+            Known { key: KF_BLIND_NO_MARKED, what: "Transaction::blind panics (expect) when no output is marked for blinding", repro: repro_blind_no_marked },
+            Known { key: KF_NEW_BECH32_EMPTY, what: "SegwitHrpstring::new_bech32 panics on a string with an empty data part", repro: repro_new_bech32 },
+        ],
+    }
 }
